@@ -427,6 +427,8 @@ def run(ctx, chk, tier="quick"):
     sqltypes.check(ctx, chk, "C17.O3", modules=("simulate_rise",), views=("average_rising_depth",))
     f = ctx.func("simulate_rise.compute_rise_curve")
     p = f.params
+    from ..perm import sorted_values_regathered
+    sorted_values_regathered(ctx, chk, "C17.O3", ('simulate_rise', 'specific_yield'), "simulate_rise")
     facts, probs = simfacts.extract(ctx, f, p[1], p[2])
     simfacts.report(chk, "C17.O1", "C17.O2", f, facts, probs, "storage", "specific-yield integral")
     if facts is not None:
